@@ -1,2 +1,32 @@
-/- C15 property theorems (under construction) -/
-import Decaf.Model.Exec
+/-
+C15 — Circuit shape is input-independent and matches the pinned Groth16 keys  (PARTIAL: not a proof of the property).
+
+What a theorem can say here: the value that an element contributes as public input — `to_field_elements` =
+`[vartime_compress_to_field]`, which is also what `AllocVar::new_input` allocates — is the same field element for
+every representative of the same group element, in both builds, so prover and verifier agree on it whatever
+representative each of them holds.  The shape of the constraint system and its compatibility with the pinned keys
+are facts about matrices that ark-r1cs-std produces at run time and about ark-groth16; they are observed by the
+check (matrix digests over all input classes and both synthesis modes, prove/verify with the pinned keys), not proved.
+-/
+import Decaf.Props.C03
+
+namespace C15
+open Model Edwards Decaf
+
+/-- the public-input representation of an element: one field element, its encoding -/
+def publicInput (sr : SR) (c : Ext) : Option (List ℕ) := (Ext.encodeField sr c).map (fun s => [s])
+
+/-- exactly one instance value, and it is the specified encoding of the element -/
+theorem public_input_is_encoding {sr : SR} (h : SRContract sr) {c : Ext} {pt : E} (hr : ERepr c pt) (he : Point.IsEven pt) :
+    ∃ s, publicInput sr c = some [s] ∧ s < q ∧ EncSpec pt s := by
+  obtain ⟨s, hs, hlt, hspec⟩ := C03.encode_eq_spec h hr he
+  exact ⟨s, by unfold publicInput; rw [hs]; rfl, hlt, hspec⟩
+
+/-- prover and verifier may hold different representatives (and run different builds): same public input -/
+theorem public_input_coherent {sr sr' : SR} (h : SRContract sr) (h' : SRContract sr') {c c' : Ext} {p p' : E}
+    (hr : ERepr c p) (hr' : ERepr c' p') (he : Point.IsEven p) (hc : Point.Coset p p') :
+    publicInput sr c = publicInput sr' c' := by
+  unfold publicInput
+  rw [C03.encode_respects_element h h' hr hr' he hc]
+
+end C15
